@@ -18,10 +18,11 @@ SnapOf(j) == [local  |-> [loc |-> j.local.loc, tok |-> j.local.tok],
               shape  |-> [p \in Peers |-> j.shape[p]],
               ctlDup |-> j.ctlDup]
 
-ScriptInit == /\ sid \in 1..Len(Scripts)
-              /\ script = Scripts[sid]
-              /\ l = 1
-              /\ Init
+ScriptInit == \E all \in {Scripts} :          \* binds the file's content once
+                /\ sid \in 1..Len(all)
+                /\ script = all[sid]
+                /\ l = 1
+                /\ Init
 ScriptNext == /\ l <= Len(script)
               /\ Refresh(SnapOf(script[l].snap), script[l].force)
               /\ l' = l + 1
